@@ -71,6 +71,32 @@ def cli_job(rng, w):
     return job, len([p for p in params if p.split(":")[0] not in ("base", "group", "addr_unit")])
 
 
+def with_sibling_files(rng, w):
+    """The same program plus 2-6 included files of identical shape (every file declares its first symbol at byte
+    offset 0, the next at the same later offset, ...): anything keyed on a position within a file ties across files."""
+    root = w["roots"][0]
+    files = dict(w["files"])
+    text = files.get(root)
+    if not isinstance(text, str):
+        return w
+    n = rng.randint(2, 6)
+    names = rng.sample(["uart", "gpio", "tmr0", "spi0", "adc0", "dma0", "rtc0", "i2c0"], n)
+    shape = rng.choice(["%s_base = %d\n%s_data = %s_base + 1\n.sub = 3\n", "%s_base = %d\n#const %s_ctl = %s_base * 2\n",
+                        "%s_base = %d\n%s_end:\n.x = %s_base\n"])
+    inc = []
+    for k, nm in enumerate(names):
+        fname = "zz_%s.asm" % nm
+        if fname in files:
+            return w
+        files[fname] = shape % (nm, 16 + k, nm, nm)
+        inc.append('#include "%s"' % fname)
+    files[root] = text + ("" if text.endswith("\n") else "\n") + "\n".join(inc) + "\n"
+    w2 = dict(w)
+    w2["files"] = files
+    w2["tag"] = w["tag"] + "+siblings"
+    return w2
+
+
 def nontrivial_marker(w, rec, nparams):
     if nparams >= 2:
         return True
@@ -91,6 +117,8 @@ def shard(ctx):
             rng = ctx.rng(i)
             i += ctx.nshards
             w = workload.draw(rng, kinds=("isa", "casc", "corpus", "mut", "isamut", "macro"), weights=(3, 3, 3, 3, 1, 4))
+            if rng.random() < 0.3:
+                w = with_sibling_files(rng, w)
             nparams = 0
             if rng.random() < 0.3:
                 job, nparams = cli_job(rng, w)
